@@ -26,6 +26,31 @@ if tp.TYPE_CHECKING:
 T = tp.TypeVar('T')
 
 #-------------------------------------------------------------------------------
+# reflected operators: module-level functions (not local lambdas) so that they can be pickled, as when a Batch delivers them to a process pool
+
+def _radd(rhs: tp.Any, lhs: tp.Any) -> tp.Any:
+    return operator_mod.__add__(lhs, rhs)
+
+def _rsub(rhs: tp.Any, lhs: tp.Any) -> tp.Any:
+    return operator_mod.__sub__(lhs, rhs)
+
+def _rmul(rhs: tp.Any, lhs: tp.Any) -> tp.Any:
+    return operator_mod.__mul__(lhs, rhs)
+
+def _rmatmul(rhs: tp.Any, lhs: tp.Any) -> tp.Any:
+    return operator_mod.__matmul__(lhs, rhs)
+
+def _rtruediv(rhs: tp.Any, lhs: tp.Any) -> tp.Any:
+    return operator_mod.__truediv__(lhs, rhs)
+
+def _rfloordiv(rhs: tp.Any, lhs: tp.Any) -> tp.Any:
+    return operator_mod.__floordiv__(lhs, rhs)
+
+for _func in (_radd, _rsub, _rmul, _rmatmul, _rtruediv, _rfloordiv):
+    # the name is used to identify the operator
+    _func.__name__ = _func.__name__[1:]
+
+#-------------------------------------------------------------------------------
 class ContainerBase(metaclass=InterfaceMeta):
     '''
     Root of all containers. Most containers, like Series, Frame, and Index, inherit from ContainerOperand; only Bus inherits from ContainerBase.
@@ -204,34 +229,22 @@ class ContainerOperand(ContainerBase):
 
     #---------------------------------------------------------------------------
     def __radd__(self, other: tp.Any) -> tp.Any:
-        operator = lambda rhs, lhs: operator_mod.__add__(lhs, rhs)
-        operator.__name__ = 'r' + operator_mod.__add__.__name__
-        return self._ufunc_binary_operator(operator=operator, other=other)
+        return self._ufunc_binary_operator(operator=_radd, other=other)
 
     def __rsub__(self, other: tp.Any) -> tp.Any:
-        operator = lambda rhs, lhs: operator_mod.__sub__(lhs, rhs)
-        operator.__name__ = 'r' + operator_mod.__sub__.__name__
-        return self._ufunc_binary_operator(operator=operator, other=other)
+        return self._ufunc_binary_operator(operator=_rsub, other=other)
 
     def __rmul__(self, other: tp.Any) -> tp.Any:
-        operator = lambda rhs, lhs: operator_mod.__mul__(lhs, rhs)
-        operator.__name__ = 'r' + operator_mod.__mul__.__name__
-        return self._ufunc_binary_operator(operator=operator, other=other)
+        return self._ufunc_binary_operator(operator=_rmul, other=other)
 
     def __rmatmul__(self, other: tp.Any) -> tp.Any:
-        operator = lambda rhs, lhs: operator_mod.__matmul__(lhs, rhs)
-        operator.__name__ = 'r' + operator_mod.__matmul__.__name__
-        return self._ufunc_binary_operator(operator=operator, other=other)
+        return self._ufunc_binary_operator(operator=_rmatmul, other=other)
 
     def __rtruediv__(self, other: tp.Any) -> tp.Any:
-        operator = lambda rhs, lhs: operator_mod.__truediv__(lhs, rhs)
-        operator.__name__ = 'r' + operator_mod.__truediv__.__name__
-        return self._ufunc_binary_operator(operator=operator, other=other)
+        return self._ufunc_binary_operator(operator=_rtruediv, other=other)
 
     def __rfloordiv__(self, other: tp.Any) -> tp.Any:
-        operator = lambda rhs, lhs: operator_mod.__floordiv__(lhs, rhs)
-        operator.__name__ = 'r' + operator_mod.__floordiv__.__name__
-        return self._ufunc_binary_operator(operator=operator, other=other)
+        return self._ufunc_binary_operator(operator=_rfloordiv, other=other)
 
     # --------------------------------------------------------------------------
     # ufunc axis skipna methods: applied along an axis, reducing dimensionality.
